@@ -100,9 +100,20 @@ class Pair(Expr):
     p: tuple[Lit, Var]
 
 
+# productions spread over modules, imported in the order this process's environment asks for
+sys.path.insert(0, os.path.dirname(os.path.abspath(__file__)))
+import importlib  # noqa: E402
+for _m in (("ma", "mb", "mc") if os.environ.get("C08_IMPORT_ORDER", "a") == "a" else ("mc", "mb", "ma")):
+    importlib.import_module("c08mods." + _m)
+from c08mods.base import Shape  # noqa: E402
+from c08mods.ma import Dot  # noqa: E402
+from c08mods.mb import Frame  # noqa: E402
+from c08mods.mc import Group  # noqa: E402
+
 GRAMMARS = {
     "full": ([Lit, Var, Add, Neg, Sum, If, Less, Flag, Pair], Expr),
     "plain": ([Lit, Var, Add, Neg, Less, Flag, If], Expr),
+    "split": ([Frame, Dot, Group], Shape),
 }
 
 
